@@ -13,7 +13,18 @@ def plans(tier):
     return mc, sim
 
 
+def _cer(host):
+    from .. import nodetrace as nt
+    return nt.M("CE", True, 1, 1, oh=host, auth=[4])
+
+
+def two_ready_prefix():
+    """two inbound connections, one per peer, both through their capabilities exchange"""
+    return [{"a": "connect"}, {"a": "connect"}, {"a": "feed", "c": 1, "ms": [_cer("p1.r1")]}, {"a": "feed", "c": 2, "ms": [_cer("p2.r1")]}]
+
+
 def enum_plans(tier):
     th = tier == "thorough"
-    # two connections, the same identifiers in flight on both, answers submitted in every order
-    return [dict(cfg="HOLD2", depth=8 if th else 7, maxtime=0, alpha=["cerok", "req1"], faults=False, maxconn=2)]
+    # two ready connections of two peers; the same hop-by-hop id in flight on both (equal and different end-to-end ids);
+    # answers submitted in every order, also twice
+    return [dict(cfg="HOLD2", depth=6 if th else 5, maxtime=0, alpha=["req1", "req2"] + (["resub"] if False else []), faults=False, maxconn=2, prefix=two_ready_prefix())]
